@@ -106,6 +106,8 @@ def protection : Loc → Protection
   | .include_ErrPathTraversal => .immutableAfterInit
   | .server_dateRegex => .immutableAfterInit
   | .server_defaultDateFormat => .immutableAfterInit
+  -- the feature gate's table (feature_gate.go): a map literal, only ever indexed
+  | .server_requestFeature => .immutableAfterInit
   | .server_tokenCache => .immutableAfterInit
   | .workspace_excludedDirs => .immutableAfterInit
 
